@@ -6,7 +6,7 @@ check is run against it (VERIF_REPO=<scratch>) and must exit 1 with a
 VIOLATION line; the scratch copy is removed straight afterwards.  /repo itself
 is never touched.
 
-usage: mutants.py [--tier quick] [id ...]
+usage: mutants.py [--tier quick] [--seed N] [id ...]
 """
 import sys, os, json, shutil, subprocess, tempfile, time
 
@@ -18,6 +18,10 @@ def main():
     if '--tier' in sys.argv:
         tier = sys.argv[sys.argv.index('--tier') + 1]
         args = [a for a in args if a != tier]
+    seed = None               # --seed N: batch seed other than each machine's default (out-of-sample detection)
+    if '--seed' in sys.argv:
+        seed = sys.argv[sys.argv.index('--seed') + 1]
+        args = [a for a in args if a != seed]
     sdir = os.path.join(HERE, 'seeded')
     ids = args or sorted(d for d in os.listdir(sdir) if os.path.exists(os.path.join(sdir, d, 'patch.diff')))
     results = []
@@ -42,6 +46,8 @@ def main():
                 continue
             env = dict(os.environ, VERIF_REPO=dst)
             env.pop('PYTHONHASHSEED', None)
+            if seed is not None:
+                env['VERIF_SEED'] = seed
             t0 = time.time()
             c = subprocess.run([os.path.join(HERE, 'check'), prop, '--tier', tier, '--no-evidence', '--no-minimise'], env=env,
                                stdout=subprocess.PIPE, stderr=subprocess.STDOUT, text=True, cwd=HERE)
